@@ -13,6 +13,7 @@ import (
 	"net/http/httptest"
 	"net/url"
 	"os"
+	"runtime/debug"
 	"sort"
 	"strings"
 
@@ -101,6 +102,9 @@ func simulate(src string) (o *simObs) {
 	defer func() {
 		if r := recover(); r != nil {
 			o.Crash = fmt.Sprint(r)
+			if os.Getenv("VH_STACK") != "" {
+				fmt.Fprintln(os.Stderr, string(debug.Stack()))
+			}
 		}
 	}()
 	// scoped snippets are configured, so that the expansion of #FASTLY macros is observable
@@ -143,15 +147,25 @@ func eqS(a, b []string) bool {
 }
 
 func c09Replay(args []string) int {
-	server := httptest.NewServer(http.HandlerFunc(func(w http.ResponseWriter, r *http.Request) {
-		w.Header().Set("Cache-Control", "max-age=100")
-		w.WriteHeader(200)
-		w.Write([]byte("OK")) // nolint:errcheck
-	}))
+	// three stub backends, created once: the text of a backend declaration (its port included) is the same for
+	// the decorated and the undecorated spelling of a program
+	mk := func(n string) *httptest.Server {
+		return httptest.NewServer(http.HandlerFunc(func(w http.ResponseWriter, r *http.Request) {
+			w.Header().Set("Cache-Control", "max-age=100")
+			w.Header().Set("X-Backend", n)
+			w.WriteHeader(200)
+			w.Write([]byte("OK")) // nolint:errcheck
+		}))
+	}
+	server, server2, server3 := mk("1"), mk("2"), mk("3")
 	defer server.Close()
+	defer server2.Close()
+	defer server3.Close()
 	u, _ := url.Parse(server.URL)
+	u2, _ := url.Parse(server2.URL)
+	u3, _ := url.Parse(server3.URL)
 	concretize := func(s string) string {
-		return strings.ReplaceAll(strings.ReplaceAll(s, "__HOST__", u.Hostname()), "__PORT__", u.Port())
+		return strings.NewReplacer("__HOST__", u.Hostname(), "__PORT2__", u2.Port(), "__PORT3__", u3.Port(), "__PORT__", u.Port()).Replace(s)
 	}
 	seed := hx.Seed()
 	out := hx.NewOut()
@@ -229,13 +243,29 @@ func c09Replay(args []string) int {
 					r.Observed = map[string]any{"decorated": o, "undecorated": b}
 				}
 				if o.Parse != "" {
-					// not a position where the grammar allows a comment
-					r.Drift = append(r.Drift, map[string]any{"obs": "decorated-unparseable", "err": o.Parse})
+					// White space is allowed between any two tokens and docs/parser.md documents its comment
+					// placeholders: a decoration made of empty lines only, or of comments at documented placeholders,
+					// that stops the program from parsing changes its meaning.  A comment at another position may
+					// simply not be allowed there by the grammar (no verdict).
+					allowed := true
+					for _, c := range d {
+						if c.Sp != "blankonly" && gaps[c.At-1].S != "1" {
+							allowed = false
+						}
+					}
+					if allowed {
+						r.Mismatch = append(r.Mismatch, map[string]any{"obs": "decorated-unparseable", "err": o.Parse})
+					} else {
+						r.Drift = append(r.Drift, map[string]any{"obs": "decorated-unparseable", "err": o.Parse})
+					}
 					fail()
 					out.Write(r)
 					continue
 				}
-				if !eqS(o.Lint, b.Lint) {
+				if !eqS(o.Lint, b.Lint) && eqS(withoutCommentText(o.Lint, d), b.Lint) {
+					// the message quotes the source text of an expression, comment included: wording, not a verdict
+					r.Drift = append(r.Drift, map[string]any{"obs": "message-quotes-comment"})
+				} else if !eqS(o.Lint, b.Lint) {
 					r.Mismatch = append(r.Mismatch, map[string]any{"obs": "lint-differs", "decorated": diffS(o.Lint, b.Lint), "undecorated": diffS(b.Lint, o.Lint)})
 				}
 				if p.Exec {
@@ -273,5 +303,21 @@ func diffS(a, b []string) []string {
 		}
 		out = append(out, x)
 	}
+	return out
+}
+
+// withoutCommentText removes the text of the inserted comments from diagnostics that quote source text
+func withoutCommentText(lint []string, d []comment) []string {
+	out := make([]string, len(lint))
+	for i, l := range lint {
+		for _, c := range d {
+			t := commentText(c)
+			l = strings.ReplaceAll(l, t+" ", "")
+			l = strings.ReplaceAll(l, " "+t, "")
+			l = strings.ReplaceAll(l, t, "")
+		}
+		out[i] = l
+	}
+	sort.Strings(out)
 	return out
 }
